@@ -786,7 +786,40 @@ def work_budget(P, comp):
                 continue
             return True, "%s checks a shared counter (Cell reached from `%s`) against %s before every call back into the cycle and steps it up" % (
                 k.split("::")[-1], b["locals"][p]["name"], limit)
-    return False, "no counter shared by all activations (a Cell reached from a parameter that is handed on) is checked against a constant and stepped up in front of the calls back into the cycle"
+    # the same through a `&mut <integer>` parameter that every call back into the cycle gets re-borrowed
+    for k in comp:
+        if _has_cycle_without(P, comp, k):
+            continue
+        b = P.body[k]
+        ch = MU.Chaser(b)
+        idom = G.dominators(b)
+        rec_calls = [(bb, term) for bb, term, name, tg in P.call_sites(k) if any(x in comp for x in tg)]
+        for i in range(1, b["arg_count"] + 1):
+            if not re.match(r"^&mut [ui](8|16|32|64|128|size)$", P.tys(k, b["locals"][i]["ty"])):
+                continue
+            is_ctr = lambda root, proj, i=i: root == i and [e["k"] for e in proj if e["k"] != "addrof"] == ["deref"]
+            guard_bb = None
+            limit = None
+            for bi, bl in enumerate(b["blocks"]):
+                for st in bl["stmts"]:
+                    if st["k"] == "assign" and st["rv"]["k"] == "bin" and st["rv"]["op"] in ("Gt", "Ge", "Lt", "Le") and "const" in st["rv"]["r"]:
+                        r = ch.root(st["rv"]["l"], through_calls=False)
+                        if is_ctr(r[0], r[1]) and bl["term"]["k"] == "switch" and _err_exit_sides(P, k, b, bl, comp):
+                            guard_bb = bi
+                            limit = st["rv"]["r"]["const"].get("int")
+            if guard_bb is None or not rec_calls or not all(G.dominates(idom, guard_bb, bb) for bb, term in rec_calls):
+                continue
+            stepped = False
+            for bi, bl in enumerate(b["blocks"]):
+                for st in bl["stmts"]:
+                    if st["k"] == "assign" and st["place"]["local"] == i and [e["k"] for e in st["place"]["proj"]] == ["deref"]:
+                        if _increment_of(b, ch, st["rv"].get("op", {}), is_ctr) and all(G.dominates(idom, bi, bb) for bb, term in rec_calls):
+                            stepped = True
+            passed = all(any(ch.root(a, through_calls=False)[0] == i for a in term["args"]) for bb, term in rec_calls)
+            if stepped and passed:
+                return True, "%s checks the shared counter `*%s` against %s before every call back into the cycle, steps it up and hands the same reference on" % (
+                    k.split("::")[-1], b["locals"][i]["name"], limit)
+    return False, "no counter shared by all activations (a Cell reached from a parameter that is handed on, or a `&mut` integer re-borrowed into every call) is checked against a constant and stepped up in front of the calls back into the cycle"
 
 
 _guard_cache = {}
